@@ -279,6 +279,7 @@ def run(rep: common.Report, tier: str, seed: int, replay=None) -> int:
             rep.violation("Device.contains_points is not (inside film) and (outside every hole)", {"device": di})
         snap = [p.points.copy() for p in dev.polygons]
         pp = None if dev.probe_points is None else dev.probe_points.copy()
+        sites0 = None if dev.mesh is None else np.array(dev.mesh.sites, copy=True)
         d2 = dev.scale(xfact=-1.5, yfact=2.0)
         d3 = dev.rotate(33.0, origin=(0.5, -0.5))
         d4 = dev.translate(1.0, -2.0)
@@ -287,6 +288,9 @@ def run(rep: common.Report, tier: str, seed: int, replay=None) -> int:
         if not all(np.array_equal(a, p.points) for a, p in zip(snap, dev.polygons)) or \
                 (pp is not None and not np.array_equal(pp, dev.probe_points)):
             rep.violation("a non-in-place device operation (or an in-place operation on a copy) mutated the original device", {"device": di})
+        if sites0 is not None and not np.array_equal(sites0, dev.mesh.sites):
+            rep.violation("an in-place operation on a COPY of a meshed device moved the original's mesh sites (copy aliases the mesh)",
+                          {"device": di, "max_shift": float(np.max(np.abs(sites0 - dev.mesh.sites)))})
         # points map consistently with the shapes: the device's own probe points and arbitrary sample points, for maps
         # about non-default origins (reflection included)
         ox, oy = rng.uniform(-2, 2), rng.uniform(-2, 2)
@@ -333,6 +337,9 @@ def run(rep: common.Report, tier: str, seed: int, replay=None) -> int:
                     rep.violation("Device.translation(0, 2.5) did not move the mesh sites with the shapes", {"device": di})
             if np.max(np.abs(np.asarray(dm.points) - base_pts)) > 1e-9:
                 rep.violation("Device.translation() did not restore the mesh sites", {"device": di})
+            if not np.array_equal(sites0, dev.mesh.sites):
+                rep.violation("in-place translations of copies of a meshed device moved the original's mesh sites",
+                              {"device": di, "max_shift": float(np.max(np.abs(sites0 - dev.mesh.sites)))})
         # probe points given as integers (a list of int tuples is ordinary input) move like any other point
         try:
             devi = tdgl.Device("int probes", layer=dev.layer, film=dev.film, holes=list(dev.holes), terminals=list(dev.terminals),
